@@ -531,7 +531,7 @@ def account(ctx, sc, results):
 def run(ctx):
     rng = ctx.rng
     from props import cli_proc
-    cli_proc.stream(ctx, ['C05'])
+    cli_proc.stream(ctx, ['C05', 'C05@rfigc'])
     for sc, runs in corpus():
         account(ctx, sc, exec_scenario(ctx, sc, runs))
     # bit flips at the block-read boundaries of generate_hashes (65536-byte reads), size and mtime restored
